@@ -139,6 +139,12 @@ def prepare_sources(pid, unit, scratch):
         open(dst, 'w').write(text)
         report += ['%s: %s' % (rel, r) for r in rep]
         woven_dirs.add(os.path.dirname(rel))
+    # unmodified copies of the sibling .c files next to woven ones ("encode_cobs_zpe.c" #include's "encode_cobs.c")
+    for d in woven_dirs:
+        ddir = os.path.join(scratch, 'src', d)
+        for fn in os.listdir(os.path.join(REPO, d)):
+            if fn.endswith('.c') and not os.path.exists(os.path.join(ddir, fn)):
+                shutil.copyfile(os.path.join(REPO, d, fn), os.path.join(ddir, fn))
     srcs = []
     subst = unit.get('subst', {})
     for rel, pairs in subst.items():
@@ -160,11 +166,14 @@ def prepare_sources(pid, unit, scratch):
         if rel in specs:
             srcs.append(os.path.join(scratch, 'src', rel))
         elif os.path.dirname(rel) in woven_dirs:
-            # file that #include's a woven sibling ("encode_cobs_zpe.c"): unmodified copy next to it
-            dst = os.path.join(scratch, 'src', rel)
-            os.makedirs(os.path.dirname(dst), exist_ok=True)
-            shutil.copyfile(os.path.join(REPO, rel), dst)
-            srcs.append(dst)
+            # file that #include's a woven sibling ("encode_cobs_zpe.c"): unmodified copies of it and of
+            # the other .c files of that directory next to the woven one
+            ddir = os.path.join(scratch, 'src', os.path.dirname(rel))
+            os.makedirs(ddir, exist_ok=True)
+            for fn in os.listdir(os.path.join(REPO, os.path.dirname(rel))):
+                if fn.endswith('.c') and not os.path.exists(os.path.join(ddir, fn)):
+                    shutil.copyfile(os.path.join(REPO, os.path.dirname(rel), fn), os.path.join(ddir, fn))
+            srcs.append(os.path.join(ddir, os.path.basename(rel)))
         else:
             p = os.path.join(REPO, rel)
             if not os.path.exists(p):
@@ -480,6 +489,14 @@ def run_unit(pid, unit, tier, keep=False, verbose=False):
         for r in results:
             desc = r.get('description', '')
             st = r.get('status')
+            if '.postcondition.' in (r.get('property') or '') and '/*@cover' in src_line(r.get('sourceLocation', {}), cache):
+                # reachability probe written as a contract clause: __CPROVER_ensures(!(cond)) /*@cover: name*/ must FAIL
+                covers += 1
+                if st == 'FAILURE':
+                    cov_hit += 1
+                else:
+                    res.setdefault('covers_missed', []).append(src_line(r.get('sourceLocation', {}), cache)[:120])
+                continue
             if desc.startswith('cover: ') or desc.startswith('check: cover: '):
                 covers += 1
                 if st == 'FAILURE':
@@ -510,6 +527,9 @@ def run_unit(pid, unit, tier, keep=False, verbose=False):
         res.update(obligations=n_ob, discharged=n_ok, covers_expected=covers, covers_hit=cov_hit, canary_ok=canary)
         res['samples'] = [{'obligation': r.get('property'), 'description': r.get('description'), 'status': r.get('status')}
                           for r in results[:: max(1, len(results) // 4)][:4]]
+        nobody = [f['description'] for f in fails if '.no-body.' in (f.get('property') or '')]
+        if nobody:
+            raise Inconclusive('callee without body (nondeterministic result), add a model or a stub: %s' % nobody)
         res['undecided'] = undecided
         if undecided and not fails:
             raise Inconclusive('%d obligations left undecided by the solver (status neither SUCCESS nor FAILURE)' % undecided)
@@ -623,6 +643,10 @@ def main(argv):
     if not a.unit:
         shutil.rmtree(outdir, ignore_errors=True)
     os.makedirs(outdir, exist_ok=True)
+    for un in (a.unit or []):
+        for fn in os.listdir(outdir):
+            if fn.startswith(un + '.'):
+                os.remove(os.path.join(outdir, fn))
     violations = []
     known_hits = []
     inconcl = []
